@@ -32,6 +32,111 @@ CONFIGS = {
 }
 
 
+# ---- renamed data members: (record qualified name without template arguments, current field name) -> name the
+# rules were written against (tables/field_anchors.json; see tool/gen_anchors.py)
+FIELD_ALIAS = {}
+_FIELD_TABLE = None
+
+
+def _field_table():
+    global _FIELD_TABLE
+    if _FIELD_TABLE is None:
+        try:
+            with open(os.path.join(VERIF, 'tables', 'field_anchors.json')) as f:
+                _FIELD_TABLE = json.load(f)['records']
+        except (OSError, ValueError, KeyError):
+            _FIELD_TABLE = {}
+    return _FIELD_TABLE
+
+
+def note_record_fields(qn, names, types=None):
+    """called for every record read from a fact file: detect renamed fields (same record, same number of fields,
+    same position; the old name is gone and the new one was never a field of this record)"""
+    variants = _field_table().get(qn) or []
+    if any([x[0] for x in v] == list(names) for v in variants):
+        return
+    for ref in variants:
+        if len(ref) == len(names):
+            _note_fields_variant(qn, ref, names, types)
+
+
+def _note_fields_variant(qn, ref, names, types):
+    old_names = [x[0] for x in ref]
+    ren = []
+    same_types = True
+    for i, (o, n) in enumerate(zip(old_names, names)):
+        if o != n:
+            if n in old_names or o in names:
+                return  # reordered / swapped: not a pure rename
+            ren.append((n, o))
+            if types is None or strip_targs(types[i]) != ref[i][1]:
+                same_types = False
+    # many renames at once are believed only if every renamed position kept its type
+    if len(ren) > max(1, len(names) // 2) and not same_types:
+        return
+    for n, o in ren:
+        FIELD_ALIAS[(qn, n)] = o
+
+
+METHOD_ALIAS = {}
+_METHOD_TABLE = None
+
+
+def _method_table():
+    global _METHOD_TABLE
+    if _METHOD_TABLE is None:
+        try:
+            with open(os.path.join(VERIF, 'tables', 'field_anchors.json')) as f:
+                _METHOD_TABLE = json.load(f).get('methods', {})
+        except (OSError, ValueError):
+            _METHOD_TABLE = {}
+    return _METHOD_TABLE
+
+
+def note_record_methods(qn, names):
+    """renamed member functions: same record, same number of member functions (templates included), same position;
+    the old name is gone from the record and the new one was never one of its members"""
+    variants = _method_table().get(qn) or []
+    if list(names) in variants:
+        return
+    for ref in variants:
+        if len(ref) == len(names):
+            _note_methods_variant(qn, ref, names)
+
+
+def _note_methods_variant(qn, ref, names):
+    ren = {}
+    for o, n in zip(ref, names):
+        if o != n:
+            if n in ref or o in names:
+                return
+            if ren.get(n, o) != o:
+                return
+            ren[n] = o
+    if len(ren) > max(2, len(set(names)) // 3):
+        return
+    for n, o in ren.items():
+        METHOD_ALIAS[(qn, n)] = o
+
+
+def canon_function(qn_stripped):
+    """canonical qualified function name: a renamed member function is spelled with its original name"""
+    if not METHOD_ALIAS or '::' not in qn_stripped:
+        return qn_stripped
+    rec, name = qn_stripped.rsplit('::', 1)
+    o = METHOD_ALIAS.get((rec, name))
+    return rec + '::' + o if o else qn_stripped
+
+
+def canon_field(qualified):
+    """canonical qualified field name ('a::B::_x'): a renamed field is spelled with its original name"""
+    if not FIELD_ALIAS or '::' not in qualified:
+        return qualified
+    rec, name = qualified.rsplit('::', 1)
+    o = FIELD_ALIAS.get((strip_targs(rec), name))
+    return rec + '::' + o if o else qualified
+
+
 class AnalysisBroken(Exception):
     """The analysis itself cannot be carried out (exit 2): never a pass, never a violation."""
 
@@ -326,8 +431,11 @@ class Function:
         self.cfgid = cfgid
         self.key = S[raw['key']]
         self.qnf = S[raw['qn']]
-        self.qn = strip_targs(self.qnf)
+        self.qn = canon_function(strip_targs(self.qnf))
         self.n = S[raw['n']]
+        if METHOD_ALIAS and self.qn.rsplit('::', 1)[-1] != self.n and '::' in self.qn and \
+                strip_targs(self.qnf).rsplit('::', 1)[-1] == self.n:
+            self.n = self.qn.rsplit('::', 1)[-1]  # a renamed member function keeps its original name for the rules
         self.file = S[raw['file']]
         self.line = raw['line']
         self.eline = raw.get('eline', raw['line'])
@@ -373,10 +481,23 @@ class Function:
                     n['lams'] = [S[x] for x in n['lams']]
                 if 'cn' in n:
                     n['cnf'] = n['cn']
-                    n['cn'] = strip_targs(n['cn'])
+                    n['cn'] = canon_function(strip_targs(n['cn']))
                 if 'dn' in n:
                     n['dnf'] = n['dn']
                     n['dn'] = strip_targs(n['dn'])
+                if METHOD_ALIAS and n['k'] == 'MemberExpr' and 'mn' in n and 'dn' in n and '::' in n['dn']:
+                    rec = n['dn'].rsplit('::', 1)[0]
+                    o = METHOD_ALIAS.get((rec, n['mn']))
+                    if o is not None:
+                        n['mn'] = o
+                        n['dn'] = rec + '::' + o
+                if FIELD_ALIAS and n['k'] == 'MemberExpr' and 'mn' in n and 'dn' in n and '::' in n['dn']:
+                    rec = n['dn'].rsplit('::', 1)[0]
+                    o = FIELD_ALIAS.get((rec, n['mn']))
+                    if o is not None:  # a renamed data member: the rules see its original name
+                        n['mn_now'] = n['mn']
+                        n['mn'] = o
+                        n['dn'] = rec + '::' + o
             self._nodes = ns
         return self._nodes
 
@@ -674,7 +795,7 @@ def rel(path):
 
 
 class Record:
-    __slots__ = ('name', 'qn', 'file', 'line', 'bases', 'fields', 'methods', 'final', 'union', 'ta')
+    __slots__ = ('name', 'qn', 'file', 'line', 'bases', 'fields', 'methods', 'final', 'union', 'ta', 'mnames')
 
     def __init__(self, raw, S):
         self.name = S[raw['name']]
@@ -687,6 +808,15 @@ class Record:
         self.bases = [dict(t=S[b['t']], acc=b['acc'], virtual=b.get('virtual', 0)) for b in raw['bases']]
         self.fields = [dict(n=S[f['n']], t=S[f['t']], acc=f['acc'], mutable=f.get('mutable', 0), dmi=f.get('dmi', 0))
                        for f in raw['fields']]
+        self.mnames = [S[i] for i in raw.get('mnames', [])]
+        qn0 = strip_targs(self.qn)
+        note_record_methods(qn0, self.mnames)
+        note_record_fields(qn0, [f['n'] for f in self.fields], [f['t'] for f in self.fields])
+        for f in self.fields:
+            o = FIELD_ALIAS.get((qn0, f['n']))
+            if o is not None:
+                f['n_now'] = f['n']
+                f['n'] = o
         self.methods = [dict(n=S[m['n']], key=S[m['key']], virtual=m.get('virtual', 0), pure=m.get('pure', 0),
                              final=m.get('final', 0), const=m.get('const', 0), deleted=m.get('deleted', 0),
                              acc=m['acc'], ov=[S[o] for o in m.get('ov', [])]) for m in raw['methods']]
@@ -714,15 +844,15 @@ class FactBase:
             raise AnalysisBroken('%s has %d compile errors in %s' % (unit, d['errors'], cfgid))
         S = d['S']
         nf = 0
+        for raw in d['records']:  # first: they reveal renamed members, which the functions below are named by
+            n = S[raw['name']]
+            if n not in self.records:
+                self.records[n] = Record(raw, S)
         for raw in d['functions']:
             k = S[raw['key']]
             if k not in self.fn:
                 self.fn[k] = Function(raw, S, unit, cfgid)
                 nf += 1
-        for raw in d['records']:
-            n = S[raw['name']]
-            if n not in self.records:
-                self.records[n] = Record(raw, S)
         for raw in d['enums']:
             self.enums.setdefault(S[raw['name']], raw['consts'])
         for raw in d['vars']:
